@@ -13,6 +13,29 @@ def main(tier):
         reg.add(c)
     c13.setup_registry(reg)
     rep.add_static(check.run_contracts(cs, reg, 20000 if tier == "quick" else 120000))
+    # the selection switches of one expand() call are fixed: expand_recurse never rebinds its own parameters
+    # (a rebinding would carry one template's mode over to the calls that follow it)
+    import ast
+    from pyvc import loader
+    mod = loader.module("core")
+    fn = None
+    for q, f in loader.all_functions(mod):
+        if q == "Wtp.expand.expand_recurse":
+            fn = f
+    rebinds = []
+    if fn is not None:
+        params = {a.arg for a in fn.args.args}
+        stack = list(fn.body)
+        while stack:
+            n = stack.pop()
+            if isinstance(n, (ast.FunctionDef, ast.Lambda)):
+                continue            # nested functions have their own parameters
+            if isinstance(n, ast.Name) and isinstance(n.ctx, (ast.Store, ast.Del)) and n.id in params:
+                rebinds.append(f"{n.id} (line {n.lineno})")
+            stack.extend(ast.iter_child_nodes(n))
+    rep.add_obligation("core:Wtp.expand.expand_recurse#frame#parameters-are-never-rebound", "frame",
+                       "proved" if fn is not None and not rebinds else "refuted", "syntactic", fn="core:Wtp.expand.expand_recurse",
+                       detail=", ".join(rebinds)[:200])
     try:
         rep.bounded = check.run_repo_py("bounded/c13_run.py", {"tier": tier, "seed": rep.seed}, timeout=6000)
     except Exception as ex:
@@ -25,7 +48,8 @@ def main(tier):
         "an alias) is re-emitted exactly, invoke_fn never runs and everything else is dispatched exactly once; the "
         "four re-emission formatters equal their format specs; in expand_recurse's template branch template_fn is "
         "called exactly once per expanded call iff supplied, with the argument map object that was just built, and "
-        "post_template_fn at most once, after it (ghost call log, frame mode, every path). "
+        "post_template_fn at most once, after it, and a non-None result of the post hook is the expansion (ghost call "
+        "log, frame mode, every path); expand_recurse never rebinds its parameters (parent frame, expand_all). "
         "B (bounded, not counted as proved): expand against a reference selective expander, hook call multisets.")
     rep.assumptions += ["get_page's callee contract (C10)", "user hooks return Optional[str]",
                         "envelope of the bounded reference: no template call left unexpanded inside the first "
